@@ -43,20 +43,33 @@ def flatTempAll : Bool :=
 
 theorem flat_temperature_ok : flatTempAll = true := by decide +kernel
 
-/-- **C10 for every prefix, every magnitude and every state.**  After any public unit operations on the
-    shipped registries, for any two units whose single factor is one of the four temperature scales
-    (kelvin, celsius, Rankine, fahrenheit — with whatever prefixes), whatever `convert` returns is
-    `(A·(prefix(source)·m) + B) / prefix(target)` with `(A, B)` within 10⁻¹² of the exact affine definition of
-    the pair of scales (degree ratio `α`, zero shift `β`). -/
-theorem temperature_conversions_all_prefixes (ops : List Op) {c₁ c' : Conv Rat}
-    (hc₁ : c₁ = { shipped with st := run shipped.st ops })
+/-- the coefficients of the pair of scales, from the kernel-checked table -/
+def coeffs (a b : String × Rat × Rat) : Rat × Rat := (flatCoeffs (uidOf a.1) (uidOf b.1)).getD (0, 0)
+
+/-- a state of the shipped graph: same tables, unit table extended, invariants kept -/
+structure ShippedState (c : Conv Rat) : Prop where
+  near  : GraphNear lbS ubS σS c
+  wf    : GraphWF c
+  frame : CFrame shipped c
+
+theorem shippedState_units (ops : List Op) : ShippedState { shipped with st := run shipped.st ops } := by
+  obtain ⟨g, f⟩ := units_graphNear shipped_graphNear ops
+  exact ⟨g, shipped_graphWF.frameN shipped_graphNear f, f⟩
+
+/-- the core: one conversion between (prefixed) temperature scales in any state of the shipped graph — its value,
+    and that the state it leaves is again a state of the shipped graph -/
+theorem temperature_conversion_core {c₁ c' : Conv Rat} (hs : ShippedState c₁)
     {a b : String × Rat × Rat} (ha : a ∈ tempScales) (hb : b ∈ tempScales)
     {q r : Qty Rat} {t : UId} (hq : q.unit < c₁.st.units.length) (ht : t < c₁.st.units.length)
     (hsf : (c₁.st.unit! q.unit).factors = [(uidOf a.1, 1)]) (htf : (c₁.st.unit! t).factors = [(uidOf b.1, 1)])
     (h : CM.exec (convert q t) c₁ = (.ok r, c')) :
-    r.unit = t ∧ ∃ A B : Rat,
-      closeTo A (a.2.1 / b.2.1) tol 0 = true ∧ closeTo B ((a.2.2 - b.2.2) / b.2.1) tol 1000 = true ∧
-      r.mag.val = (A * (Pfx.val (c₁.st.unit! q.unit).pfx * q.mag.val) + B) * (1 / Pfx.val (c₁.st.unit! t).pfx) := by
+    r.unit = t ∧ flatCoeffs (uidOf a.1) (uidOf b.1) = some (coeffs a b) ∧
+      closeTo (coeffs a b).1 (a.2.1 / b.2.1) tol 0 = true ∧
+      closeTo (coeffs a b).2 ((a.2.2 - b.2.2) / b.2.1) tol 1000 = true ∧
+      r.mag.val = ((coeffs a b).1 * (Pfx.val (c₁.st.unit! q.unit).pfx * q.mag.val) + (coeffs a b).2) *
+        (1 / Pfx.val (c₁.st.unit! t).pfx) ∧
+      ShippedState c' ∧ CFrame c₁ c' := by
+  obtain ⟨g, w, f⟩ := hs
   have hall := flat_temperature_ok
   unfold flatTempAll at hall
   simp only [Bool.and_eq_true, List.all_eq_true] at hall
@@ -71,33 +84,207 @@ theorem temperature_conversions_all_prefixes (ops : List Op) {c₁ c' : Conv Rat
   simp only [Bool.and_eq_true, decide_eq_true_eq, beq_iff_eq] at hba hbb
   obtain ⟨⟨⟨hu, hup⟩, huf⟩, hud⟩ := hba
   obtain ⟨⟨⟨hv, hvp⟩, hvf⟩, hvd⟩ := hbb
-  -- the state after the operations
-  obtain ⟨g, f⟩ := units_graphNear shipped_graphNear ops
-  rw [← hc₁] at g f
-  have w := shipped_graphWF.frameN shipped_graphNear f
   have hu1 : uidOf a.1 < c₁.st.units.length := Nat.lt_of_lt_of_le hu f.ext.len
   have hv1 : uidOf b.1 < c₁.st.units.length := Nat.lt_of_lt_of_le hv f.ext.len
   have su := f.ext.same (uidOf a.1) hu
   have sv := f.ext.same (uidOf b.1) hv
-  obtain ⟨hru, path, hfp, hne, hval⟩ := convert_flat_single (d := tempDim) g w hq ht hu1 hv1 hsf htf
+  obtain ⟨hru, ⟨path, hfp, hne, hval⟩, hc'⟩ := convert_flat_single (d := tempDim) g w hq ht hu1 hv1 hsf htf
     ⟨su.1.trans hup, su.2.1.trans huf⟩ ⟨sv.1.trans hvp, sv.2.1.trans hvf⟩
     ((f.ext.dimOfUnit hu).trans hud) ((f.ext.dimOfUnit hv).trans hvd) hw hnn hfac hnum hneg h
-  refine ⟨hru, ?_⟩
   have hR : c₁.ratios = shipped.ratios := f.ratios
   have hO : c₁.offsets = shipped.offsets := f.offsets
   rw [hR, hO] at hfp
-  unfold flatTempCase flatCoeffs at hcase
-  rw [hfp] at hcase
   have hpe : path.isEmpty = false := by
     cases path with
     | nil => exact absurd rfl hne
     | cons _ _ => rfl
-  simp only [hpe, Bool.false_eq_true, ↓reduceIte, Bool.and_eq_true] at hcase
-  refine ⟨_, _, hcase.1, hcase.2, ?_⟩
-  rw [hval]
-  have := applyPathV_affine 1 (path.map Hop.toV) 1 0 (Pfx.val (c₁.st.unit! q.unit).pfx * q.mag.val)
-  rw [one_mul, add_zero] at this
-  rw [this]
+  have hfc : flatCoeffs (uidOf a.1) (uidOf b.1) = some (affinePath 1 (1, 0) (path.map Hop.toV)) := by
+    unfold flatCoeffs; rw [hfp]; simp only [hpe, Bool.false_eq_true, ↓reduceIte]
+  have hco : coeffs a b = affinePath 1 (1, 0) (path.map Hop.toV) := by unfold coeffs; rw [hfc]; rfl
+  unfold flatTempCase at hcase
+  rw [hfc] at hcase
+  simp only [Bool.and_eq_true] at hcase
+  -- the state after the conversion
+  obtain ⟨ga, fa⟩ := unprefixStepN g hq
+  obtain ⟨gb, fb⟩ := unprefixStepN ga (fa.lt ht)
+  have fab := fa.trans fb
+  have wb := (w.frameN g fa).frameN ga fb
+  refine ⟨hru, by rw [hfc, hco], by rw [hco]; exact hcase.1, by rw [hco]; exact hcase.2, ?_, ?_, ?_⟩
+  · rw [hval, hco]
+    have := applyPathV_affine 1 (path.map Hop.toV) 1 0 (Pfx.val (c₁.st.unit! q.unit).pfx * q.mag.val)
+    rw [one_mul, add_zero] at this
+    rw [this]
+  · rw [hc']; exact ⟨gb, wb, f.trans fab⟩
+  · rw [hc']; exact fab
+
+/-- **C10 for every prefix, every magnitude and every state.**  After any public unit operations on the
+    shipped registries, for any two units whose single factor is one of the four temperature scales
+    (kelvin, celsius, Rankine, fahrenheit — with whatever prefixes), whatever `convert` returns is
+    `(A·(prefix(source)·m) + B) / prefix(target)` with `(A, B)` within 10⁻¹² of the exact affine definition of
+    the pair of scales (degree ratio `α`, zero shift `β`). -/
+theorem temperature_conversions_all_prefixes (ops : List Op) {c₁ c' : Conv Rat}
+    (hc₁ : c₁ = { shipped with st := run shipped.st ops })
+    {a b : String × Rat × Rat} (ha : a ∈ tempScales) (hb : b ∈ tempScales)
+    {q r : Qty Rat} {t : UId} (hq : q.unit < c₁.st.units.length) (ht : t < c₁.st.units.length)
+    (hsf : (c₁.st.unit! q.unit).factors = [(uidOf a.1, 1)]) (htf : (c₁.st.unit! t).factors = [(uidOf b.1, 1)])
+    (h : CM.exec (convert q t) c₁ = (.ok r, c')) :
+    r.unit = t ∧ ∃ A B : Rat,
+      closeTo A (a.2.1 / b.2.1) tol 0 = true ∧ closeTo B ((a.2.2 - b.2.2) / b.2.1) tol 1000 = true ∧
+      r.mag.val = (A * (Pfx.val (c₁.st.unit! q.unit).pfx * q.mag.val) + B) * (1 / Pfx.val (c₁.st.unit! t).pfx) := by
+  have hs : ShippedState c₁ := by rw [hc₁]; exact shippedState_units ops
+  obtain ⟨h1, _, h3, h4, h5, _⟩ := temperature_conversion_core hs ha hb hq ht hsf htf h
+  exact ⟨h1, _, _, h3, h4, h5⟩
+
+/-! ### round trips -/
+
+/-- there and back: the composed coefficients are the identity up to 10⁻¹² (ratio) and 10⁻⁹ (shift) -/
+def rtCase (a b : String × Rat × Rat) : Bool :=
+  closeTo ((coeffs b a).1 * (coeffs a b).1) 1 tol 0 &&
+    decide (absRat ((coeffs b a).1 * (coeffs a b).2 + (coeffs b a).2) ≤ 1 / 10 ^ 9)
+
+def rtAll : Bool := tempScales.all (fun a => tempScales.all (fun b => rtCase a b))
+
+theorem round_trips_ok : rtAll = true := by decide +kernel
+
+/-- **Round trips are identities up to rounding, for every prefix, magnitude and state**: converting a temperature to
+    another scale (any prefixes) and the result back returns the magnitude within `10⁻¹²·|m| + 10⁻⁹/prefix`. -/
+theorem temperature_round_trip (ops : List Op) {c₁ c₂ c₃ : Conv Rat}
+    (hc₁ : c₁ = { shipped with st := run shipped.st ops })
+    {a b : String × Rat × Rat} (ha : a ∈ tempScales) (hb : b ∈ tempScales)
+    {q r r' : Qty Rat} {t : UId} (hq : q.unit < c₁.st.units.length) (ht : t < c₁.st.units.length)
+    (hsf : (c₁.st.unit! q.unit).factors = [(uidOf a.1, 1)]) (htf : (c₁.st.unit! t).factors = [(uidOf b.1, 1)])
+    (h₁ : CM.exec (convert q t) c₁ = (.ok r, c₂)) (h₂ : CM.exec (convert r q.unit) c₂ = (.ok r', c₃)) :
+    r'.unit = q.unit ∧
+      |r'.mag.val - q.mag.val| ≤ tol * |q.mag.val| + (1 / 10 ^ 9) / Pfx.val (c₁.st.unit! q.unit).pfx := by
+  have hs : ShippedState c₁ := by rw [hc₁]; exact shippedState_units ops
+  obtain ⟨hu1, _, _, _, hv1, hs2, f12⟩ := temperature_conversion_core hs ha hb hq ht hsf htf h₁
+  have hq2 := f12.lt hq
+  have ht2 := f12.lt ht
+  have hsf2 : (c₂.st.unit! r.unit).factors = [(uidOf b.1, 1)] := by
+    rw [hu1, (f12.ext.same t ht).2.1]; exact htf
+  have htf2 : (c₂.st.unit! q.unit).factors = [(uidOf a.1, 1)] := by
+    rw [(f12.ext.same q.unit hq).2.1]; exact hsf
+  obtain ⟨hu2, _, _, _, hv2, _, _⟩ := temperature_conversion_core hs2 hb ha (by rw [hu1]; exact ht2) hq2 hsf2 htf2 h₂
+  refine ⟨hu2, ?_⟩
+  have hrt := round_trips_ok
+  unfold rtAll at hrt
+  simp only [List.all_eq_true] at hrt
+  have hc := hrt a ha b hb
+  unfold rtCase closeTo at hc
+  simp only [Bool.and_eq_true, decide_eq_true_eq] at hc
+  obtain ⟨hA, hB⟩ := hc
+  obtain ⟨hA1, hA2⟩ := absRat_le hA
+  obtain ⟨hB1, hB2⟩ := absRat_le hB
+  have pq : 0 < Pfx.val (c₁.st.unit! q.unit).pfx := Pfx.val_pos (canon_pfx hs.near.canon hq)
+  have pt : 0 < Pfx.val (c₁.st.unit! t).pfx := Pfx.val_pos (canon_pfx hs.near.canon ht)
+  have e1 : (c₂.st.unit! r.unit).pfx = (c₁.st.unit! t).pfx := by rw [hu1]; exact f12.pfx ht
+  have e2 : (c₂.st.unit! q.unit).pfx = (c₁.st.unit! q.unit).pfx := f12.pfx hq
+  rw [e1, e2, hv1] at hv2
+  -- r' − m = (A₂A₁ − 1)·m + (A₂B₁ + B₂)/p
+  have hdiff : r'.mag.val - q.mag.val =
+      ((coeffs b a).1 * (coeffs a b).1 - 1) * q.mag.val +
+        ((coeffs b a).1 * (coeffs a b).2 + (coeffs b a).2) / Pfx.val (c₁.st.unit! q.unit).pfx := by
+    rw [hv2]
+    field_simp
+    ring
+  have habs1 : absRat 1 = 1 := by unfold absRat; norm_num
+  rw [habs1, add_zero, mul_one] at hA1 hA2
+  rw [hdiff]
+  have hm : |((coeffs b a).1 * (coeffs a b).1 - 1) * q.mag.val| ≤ tol * |q.mag.val| := by
+    rw [abs_mul]
+    exact mul_le_mul_of_nonneg_right (abs_le.2 ⟨hA1, hA2⟩) (abs_nonneg _)
+  have hsft : |((coeffs b a).1 * (coeffs a b).2 + (coeffs b a).2) / Pfx.val (c₁.st.unit! q.unit).pfx| ≤
+      (1 / 10 ^ 9) / Pfx.val (c₁.st.unit! q.unit).pfx := by
+    rw [abs_div, abs_of_pos pq]
+    exact div_le_div_of_nonneg_right (abs_le.2 ⟨hB1, hB2⟩) (le_of_lt pq)
+  exact le_trans (abs_add_le _ _) (add_le_add hm hsft)
+
+/-! ### route independence, and sums / differences -/
+
+/-- going through a third scale: the composed coefficients are the direct ones up to 10⁻¹² / 10⁻⁹ -/
+def routeCase (b w a : String × Rat × Rat) : Bool :=
+  closeTo ((coeffs w a).1 * (coeffs b w).1) (coeffs b a).1 tol 0 &&
+    decide (absRat ((coeffs w a).1 * (coeffs b w).2 + (coeffs w a).2 - (coeffs b a).2) ≤ 1 / 10 ^ 9)
+
+def routeAll : Bool := tempScales.all (fun b => tempScales.all (fun w => tempScales.all (fun a => routeCase b w a)))
+
+theorem routes_ok : routeAll = true := by decide +kernel
+
+/-- **A temperature does not change when it is re-expressed on another scale first** (C06's clause for the offset
+    scales, C05's route independence): converting `b` to a scale `w` and the result to the target gives what the
+    direct conversion gives, within `(10⁻¹²·|A|·|prefix(b)·m| + 10⁻⁹)/prefix(target)` — every triple of scales, all
+    prefixes, all magnitudes, all states. -/
+theorem temperature_route_independent (ops : List Op) {c₁ c₁' c₂ c₃ : Conv Rat}
+    (hc₁ : c₁ = { shipped with st := run shipped.st ops })
+    {b w a : String × Rat × Rat} (hb : b ∈ tempScales) (hw : w ∈ tempScales) (ha : a ∈ tempScales)
+    {q r r' d : Qty Rat} {tw t : UId}
+    (hq : q.unit < c₁.st.units.length) (htw : tw < c₁.st.units.length) (ht : t < c₁.st.units.length)
+    (hqf : (c₁.st.unit! q.unit).factors = [(uidOf b.1, 1)]) (hwf : (c₁.st.unit! tw).factors = [(uidOf w.1, 1)])
+    (htf : (c₁.st.unit! t).factors = [(uidOf a.1, 1)])
+    (hd : CM.exec (convert q t) c₁ = (.ok d, c₁'))
+    (h₁ : CM.exec (convert q tw) c₁ = (.ok r, c₂)) (h₂ : CM.exec (convert r t) c₂ = (.ok r', c₃)) :
+    |r'.mag.val - d.mag.val| ≤
+      (tol * |(coeffs b a).1| * |Pfx.val (c₁.st.unit! q.unit).pfx * q.mag.val| + 1 / 10 ^ 9) / Pfx.val (c₁.st.unit! t).pfx := by
+  have hs : ShippedState c₁ := by rw [hc₁]; exact shippedState_units ops
+  obtain ⟨_, _, _, _, hvd, _, _⟩ := temperature_conversion_core hs hb ha hq ht hqf htf hd
+  obtain ⟨hu1, _, _, _, hv1, hs2, f12⟩ := temperature_conversion_core hs hb hw hq htw hqf hwf h₁
+  have hsf2 : (c₂.st.unit! r.unit).factors = [(uidOf w.1, 1)] := by
+    rw [hu1, (f12.ext.same tw htw).2.1]; exact hwf
+  have htf2 : (c₂.st.unit! t).factors = [(uidOf a.1, 1)] := by
+    rw [(f12.ext.same t ht).2.1]; exact htf
+  obtain ⟨_, _, _, _, hv2, _, _⟩ := temperature_conversion_core hs2 hw ha (by rw [hu1]; exact f12.lt htw) (f12.lt ht) hsf2 htf2 h₂
+  have hrt := routes_ok
+  unfold routeAll at hrt
+  simp only [List.all_eq_true] at hrt
+  have hc := hrt b hb w hw a ha
+  unfold routeCase closeTo at hc
+  simp only [Bool.and_eq_true, decide_eq_true_eq] at hc
+  obtain ⟨hA, hB⟩ := hc
+  obtain ⟨hA1, hA2⟩ := absRat_le hA
+  obtain ⟨hB1, hB2⟩ := absRat_le hB
+  have pt : 0 < Pfx.val (c₁.st.unit! t).pfx := Pfx.val_pos (canon_pfx hs.near.canon ht)
+  have pw : 0 < Pfx.val (c₁.st.unit! tw).pfx := Pfx.val_pos (canon_pfx hs.near.canon htw)
+  have e1 : (c₂.st.unit! r.unit).pfx = (c₁.st.unit! tw).pfx := by rw [hu1]; exact f12.pfx htw
+  have e2 : (c₂.st.unit! t).pfx = (c₁.st.unit! t).pfx := f12.pfx ht
+  rw [e1, e2, hv1] at hv2
+  have habsA : absRat (coeffs b a).1 = |(coeffs b a).1| := by
+    unfold absRat; split
+    · next h => rw [abs_of_neg h]
+    · next h => rw [abs_of_nonneg (not_lt.1 h)]
+  rw [habsA, add_zero] at hA1 hA2
+  have hdiff : r'.mag.val - d.mag.val =
+      (((coeffs w a).1 * (coeffs b w).1 - (coeffs b a).1) * (Pfx.val (c₁.st.unit! q.unit).pfx * q.mag.val) +
+        ((coeffs w a).1 * (coeffs b w).2 + (coeffs w a).2 - (coeffs b a).2)) / Pfx.val (c₁.st.unit! t).pfx := by
+    rw [hv2, hvd]
+    field_simp
+    ring
+  rw [hdiff, abs_div, abs_of_pos pt]
+  apply div_le_div_of_nonneg_right _ (le_of_lt pt)
+  have hm : |((coeffs w a).1 * (coeffs b w).1 - (coeffs b a).1) * (Pfx.val (c₁.st.unit! q.unit).pfx * q.mag.val)| ≤
+      tol * |(coeffs b a).1| * |Pfx.val (c₁.st.unit! q.unit).pfx * q.mag.val| := by
+    rw [abs_mul]
+    exact mul_le_mul_of_nonneg_right (abs_le.2 ⟨hA1, hA2⟩) (abs_nonneg _)
+  exact le_trans (abs_add_le _ _) (add_le_add hm (abs_le.2 ⟨hB1, hB2⟩))
+
+/-- `a − b` on temperature scales is `a.magnitude − (b written in a's unit)`: the model of `Quantity.__sub__`,
+    with the closed form of the conversion -/
+theorem temperature_sub (ops : List Op) {c₁ c' : Conv Rat}
+    (hc₁ : c₁ = { shipped with st := run shipped.st ops })
+    {sa sb : String × Rat × Rat} (ha : sa ∈ tempScales) (hb : sb ∈ tempScales)
+    {a b r : Qty Rat} (hau : a.unit < c₁.st.units.length) (hbu : b.unit < c₁.st.units.length)
+    (haf : (c₁.st.unit! a.unit).factors = [(uidOf sa.1, 1)]) (hbf : (c₁.st.unit! b.unit).factors = [(uidOf sb.1, 1)])
+    (h : CM.exec (Qty.sub a b) c₁ = (.ok r, c')) :
+    r.unit = a.unit ∧
+      r.mag.val = a.mag.val - ((coeffs sb sa).1 * (Pfx.val (c₁.st.unit! b.unit).pfx * b.mag.val) + (coeffs sb sa).2) *
+        (1 / Pfx.val (c₁.st.unit! a.unit).pfx) := by
+  have hs : ShippedState c₁ := by rw [hc₁]; exact shippedState_units ops
+  unfold Qty.sub at h
+  obtain ⟨b', c2, h1, h2⟩ := exec_bind_ok h
+  rw [exec_pure] at h2
+  simp only [Prod.mk.injEq, Except.ok.injEq] at h2
+  obtain ⟨rfl, _⟩ := h2
+  obtain ⟨_, _, _, _, hv, _, _⟩ := temperature_conversion_core hs hb ha hbu hau hbf haf h1
+  exact ⟨rfl, by rw [val_sub, hv]⟩
 
 /-! ### inhabited: 25 kilo-celsius in milli-fahrenheit, on the regenerated registries -/
 
